@@ -637,6 +637,7 @@ var shareCorpus = [][4]string{
 	{"config", "publish", "ECZ", "C;-|S,S,U1,N1"},          // was the refCount leak after the nil dereference
 	{"sharereplay2", "replay2", "E", "-|S,N1,N2,N3,S,C,S"}, // ShareReplay(2)
 	{"sharereplayZ1", "replay1", "EZ", "-|S,N1,U0,S,N2"},   // ShareReplayWithConfig
+	{"sharereplay-1", "replayU", "E", "-|S,N1,N2,N3,S,C,S"}, // ShareReplay(ReplaySubjectUnlimitedBufferSize)
 	{"config", "behavior", "Z", "-|S,N1,S,E2,S"},
 	{"config", "replayU", "-", "-|S,N1,N2,C,S,S"},
 	{"config", "replay0", "ECZ", "-|S,N1,S,N2"},
@@ -746,6 +747,10 @@ func genShare(tier string, seed int64, only string) []*Case {
 		add("share", "publish", "ECZ", "-", ev)
 		add("sharereplay2", "replay2", "E", "-", ev)
 		add("sharereplayZ1", "replay1", "EZ", "-", ev)
+		// the boundary sizes of the aliases: unlimited (ReplaySubjectUnlimitedBufferSize = -1) and 0
+		add("sharereplay-1", "replayU", "E", "-", ev)
+		add("sharereplayZ-1", "replayU", "EZ", "-", ev)
+		add("sharereplay0", "replay0", "E", "-", ev)
 	}
 	// seeded longer sequences, more subscribers
 	allConns := []string{"publish", "behavior", "replay0", "replay1", "replay2", "replay3", "replayU"}
